@@ -117,7 +117,10 @@ def run(c, chk):
                     continue
                 nst += 1
                 org = value_origins(f, ins.ops[0], set())
-                bad = sorted(o for o in org if o not in want[fld] and o != 'null')
+                ok_src = set(want[fld])
+                if fld != 'opts':
+                    ok_src |= set(c.fresh_returning)
+                bad = sorted(o for o in org if o not in ok_src and o != 'null')
                 if bad:
                     chk.fail('R16.2', 'shared-%s:%s' % (fld, f.name), c.where(ins),
                              '%s() stores %s into a context\'s "%s": the context does not own a private copy' % (f.name, ', '.join(bad), fld))
